@@ -512,7 +512,7 @@ class Data(object):
                         if len(I) == 0 or self.dim_agg_length is not None:
                             # Try to get probabilities from ensemble
                             if input.ensemble is None or input.ensemble.shape[-1] == 0:
-                                verif.util.error("%s does not contain '%s'" % (self.get_names()[i], field.name()))
+                                verif.util.error("%s does not contain '%s'" % (self._inputs[i].name, field.name()))
                             temp = self.preaggregate(input.ensemble, input)
 
                             # TODO: Use interpolation here, which is better for small ensemble
@@ -536,12 +536,12 @@ class Data(object):
                         I = np.where(np.isclose(input.quantiles, field.quantile))[0]
                         if len(I) == 0 or self.dim_agg_length is not None:
                             if input.ensemble is None or input.ensemble.shape[-1] == 0:
-                                verif.util.error("%s does not contain '%s'" % (self.get_names()[i], field.name()))
+                                verif.util.error("%s does not contain '%s'" % (self._inputs[i].name, field.name()))
                             if field.quantile < 0 or field.quantile > 1:
                                 verif.util.error("Cannot compute quantile level %g from the ensemble: must be between 0 and 1" % field.quantile)
                             num_members = input.ensemble.shape[-1]
                             if field.quantile < get_lower_cdf(num_members) or field.quantile > get_upper_cdf(num_members):
-                                verif.util.warning("In %s, ensemble doesn't have enough members to accurately get quantile level %s" % (self.get_names()[i], field.quantile))
+                                verif.util.warning("In %s, ensemble doesn't have enough members to accurately get quantile level %s" % (self._inputs[i].name, field.quantile))
 
                             temp = self.preaggregate(input.ensemble, input)
                             temp = np.quantile(temp, field.quantile, axis=3, method="normal_unbiased")
@@ -553,7 +553,7 @@ class Data(object):
 
                     else:
                         if field not in all_fields:
-                            verif.util.error("%s does not contain '%s'" % (self.get_names()[i], field.name()))
+                            verif.util.error("%s does not contain '%s'" % (self._inputs[i].name, field.name()))
 
                         elif field == verif.field.Obs():
                             temp = input.obs
